@@ -227,6 +227,10 @@ class Mailbox:
 
     S4A.upon(connected, enter=S4B, outputs=[])
     S4B.upon(lost, enter=S4A, outputs=[])
+    # Nameplate tells Input about the wordlist before it tells us about the
+    # mailbox: an application that reacts to when_wordlist_is_available() by
+    # calling close() has closed us by the time got_mailbox arrives
+    S4.upon(got_mailbox, enter=S4, outputs=[])
     S4.upon(add_message, enter=S4, outputs=[])
     S4.upon(rx_message_theirs, enter=S4, outputs=[])
     S4.upon(rx_message_ours, enter=S4, outputs=[])
